@@ -13,40 +13,40 @@ add("C01","exploration","runtime monitor: use-count + stickiness oracle over seq
     "Real mint under (a) seeded sequential histories that re-present used/locked secrets in every way the statement lists, judged against a reference model, and (b) a deterministic scheduler that parks every request before and after each storage/Lightning call (lock waits are detected) and enumerates the interleavings of swap||swap, swap||melt (each LN outcome), melt||melt, checkstate||melt, swap||poll/state-check settling a pending melt on one proof (quick: all schedules with <= 3 preemptions; thorough: <= 5 preemptions, at most 10000 per scenario); oracle counts successful swaps plus Lightning payments made per secret (<=1) and probes SPENT stickiness incl. after restart. Thorough adds sampled triples, free-running stress checked for linearizability with porcupine and a race-detector pass.",
     T+" Interleavings are complete for the enumerated pairs only (DESIGN 1.1 argument); triples and stress are samples.", "3/C01")
 add("C02","exploration","runtime monitor: conservation ledger (signed - redeemed - locked + LN out <= LN in, msat) and local balance/fee-limit assertions after every operation of generated histories",
-    "Real mint against an LN model that charges the full fee limit it is authorised; seeded honest+adversarial histories over the six fee rates with rotations, internal settlement, MPP, failing/pending payments and sub-sat invoice amounts; the ledger inequality and the local forms (swap, mint, melt, fee limit <= fee reserve) are checked after every operation.",
+    "Real mint against an LN model that charges the full fee limit it is authorised; seeded honest+adversarial histories over the six fee rates with rotations, internal settlement, MPP, failing/pending payments and sub-sat invoice amounts; the ledger inequality and the local forms (swap, mint, melt, fee limit <= fee reserve, invoice >= quoted amount) are checked after every operation. Part of the runs put gonuts' own CLN and LND adapters between the mint and the model (fake CLN REST node, fake lnd gRPC server).",
     T+" Watcher notifications are not delivered in these histories (C03 covers them).", "3/C02")
 add("C03","exploration","runtime monitor: issuance-count oracle per quote over sequential histories, NUT-20 tamper matrix, and controlled-scheduler enumeration of mint||mint, mint||notification, mint||poll interleavings",
-    "Real mint; per quote #successful issuances <= #payments at every point, never before payment, sum <= amount, NUT-20 signature recomputed by the harness; the DB/LN-call interleavings of two mint requests with different outputs, of a mint request with the late watcher notification and with a state poll are enumerated by the scheduler (quick: <= 2 preemptions; thorough: <= 5 preemptions, at most 10000 per scenario, plus internal settlement); thorough adds sampled three-way schedules, porcupine stress and -race.",
+    "Real mint; per quote #successful issuances <= #payments at every point, never before payment, sum <= amount, NUT-20 signature recomputed by the harness; the DB/LN-call interleavings of two mint requests with different outputs, of a mint request with the late watcher notification and with a state poll are enumerated by the scheduler (quick: <= 2 preemptions; thorough: <= 5 preemptions, at most 10000 per scenario, plus internal settlement); thorough adds sampled three-way schedules, porcupine stress and -race. Part of the runs put gonuts' own CLN and LND adapters between the mint and the model (fake CLN REST node, fake lnd gRPC server). Invoices that lapse unpaid must stay UNPAID.",
     T+" Complete for the enumerated pairs only.", "3/C03")
 add("C04","exploration","runtime monitor: accept/reject oracle over generated single-field mutants of really minted proofs (refcrypto decides genuineness)",
     "Real mint (LoadMint + SQLite) with three keysets; valid proofs on every keyset and denomination class are minted, every value mutation of amount/id/C/secret is presented alone, after and before a valid proof through Swap and MeltTokens; mutants must be refused, originals still accepted afterwards; honestly signed secrets over 512 bytes in several encodings must be refused, 512-byte ones accepted. Held on the cases listed in the evidence, not for all inputs.",
     T+" Re-encodings of the same point are not generated.", "3/C04")
 add("C05","fault_enumeration","runtime monitor: decision-table oracle over exhaustively enumerated scripts of Lightning answers (pay x status lookups, length <= 4) and poll channels",
-    "Real MeltTokens/GetMeltQuoteState/ProofsStateCheck under a fully scripted backend: every pay answer x every status-lookup sequence up to length 3 x poll channel assignment; observed quote state, proof state, in-flight observation inside the pay call and a follow-up swap are compared with the reference table (locked / spent / released).",
+    "Real MeltTokens/GetMeltQuoteState/ProofsStateCheck under a fully scripted backend: every pay answer x every status-lookup sequence up to length 3 x poll channel assignment; observed quote state, proof state, in-flight observation inside the pay call and a follow-up swap are compared with the reference table (locked / spent / released), applied to the backend answers the code actually consumed; probes made while the pay call executes (second melt, state checks, poll, swap) against a backend that may not know the payment yet. Part of the runs put gonuts' own CLN and LND adapters between the mint and the model (fake CLN REST node, fake lnd gRPC server).",
     T+" Exhaustive within script length <= 4; 'no such payment' on a poll is permitted either way as the statement says.", "3/C05")
 add("C06","exploration","runtime monitor: full-state digest before/after every refused request + panic/hang detection over a grammar of structural and semantic mutants, API and HTTP",
     "Real mint + HTTP handler; every request derived by the mutation grammar is sent at every state of a running history; if it is refused the digest of all tables (read through a separate read-only connection) must be unchanged and the corrected request must succeed; panics and hangs are violations.",
     T, "3/C06")
 add("C07","fault_enumeration","runtime monitor: crash (sentinel panic + LoadMint) and storage-fault injection at every DB/LN call of every scenario, followed by an adversarial client follow-up judged for safety/durability/atomicity",
-    "For mint, swap, melt with each Lightning outcome, pending-melt resolution, runtime and start-up rotation: a trace run counts the n boundaries, then k=0..n are each crashed and faulted; after restart the harness's own client checks states, restores, re-spends and re-mints and computes realisable value vs. value held before.",
+    "For mint, swap, melt with each Lightning outcome, pending-melt resolution, runtime and start-up rotation: a trace run counts the n boundaries, then k=0..n are each crashed and faulted; after restart the harness's own client checks states, restores, re-spends and re-mints and computes realisable value vs. value held before, once re-sending the interrupted request and once going straight for what can be realised; quote and input states must tell one story afterwards.",
     T+" A crash is simulated in-process at call boundaries (sentinel panic, instance abandoned, LoadMint on the same directory; no transaction is open at a boundary); start-up rotation is covered through the RotateKeyset it calls. Nine genuine windows that need multi-table transactions are listed as known findings.", "3/C07")
 add("C08","exploration","runtime monitor: byte-level inspection of every HTTP request body of real wallets against all blinding factors and output secrets known from the store proxy and an independent NUT-13 derivation",
-    "Two real wallets and 1-2 real mints in one process over an in-process transport; histories over every wallet operation path; each request body is searched for every known r (hex, case-insensitive), for any JSON key r, and for output secrets before the proof is spent.",
+    "Two real wallets and 1-2 real mints in one process over an in-process transport; histories over every wallet operation path; each request body is searched for every known r (hex, case-insensitive), for any JSON key r, and for output secrets before the proof is spent; one blinding factor under two secrets, and a secret that is itself a blinding factor, are flagged; a directed sequence per history makes every kind of request once.",
     T, "3/C08")
 add("C09","exploration","runtime monitor: keyset-list / id / active-flag / fee-boundary assertions after every restart and rotation of generated lifecycle histories",
     "Real mint through sequences of restarts, start-up rotations and runtime rotations with varying fees, with traffic on old and new keysets; every earlier keyset must reappear byte-identical with id = NUT-02 derivation (refcrypto) and keys = BIP32 derivation from the stored seed, exactly one active, outputs on other keysets refused (also mixed), old proofs spendable with exactly their own keyset's fee.",
     T, "3/C09")
 add("C10","exploration","runtime monitor: algebraic and tamper oracle (refcrypto recomputation) over generated tuples and over signatures observed in real histories incl. after persistence",
-    "crypto.* and nut12.* are executed on generated secrets/scalars/keys incl. edge values and on every signature of real mint histories (returned, stored, restored); results are recomputed with the independent math/big implementation; every single-field tampering must make verification fail.",
+    "crypto.* and nut12.* are executed on generated secrets/scalars/keys incl. edge values and on every signature of real mint histories (returned, stored, restored); results are recomputed with the independent math/big implementation; every single-field tampering must make verification fail; proofs kept and handed out by real wallets are re-verified with the reference DLEQ check using their r; unblinding leaves its arguments unchanged.",
     T+" Agreement on the generated inputs, not for all inputs.", "3/C10")
 add("C11","exploration","runtime differential monitor: repository derivations vs. an independent spec implementation (math/big, crypto/hmac) bit-for-bit",
     "HashToCurve, DeriveKeysetId, NUT-13 path/secret/blinding factor are compared with refcrypto on generated messages (length 0..600, multi-iteration ones), key sets in shuffled order, seeds/ids/counters incl. boundary values; the published NUT vectors anchor the reference.",
     "Trusted: crypto/sha256, crypto/hmac, math/big, the published vectors.", "3/C11")
 add("C12","exploration","runtime monitor: independent NUT-11 evaluator vs. VerifyP2PKLockedProof and real Mint.Swap/MeltTokens over the configuration x witness x position product",
-    "Accepted => authorised (one-directional), completeness for the library's own signing helpers; SIG_ALL rules checked through the real mint with really minted locked proofs.",
+    "Accepted => authorised (one-directional), completeness for the library's own signing helpers; SIG_ALL rules checked through the real mint with really minted locked proofs (other JSON spellings of the secret included); wallet level: SendToPubkey with every tag combination redeemed by Wallet.Receive.",
     T+" Lock times are +-10^6 s from now; repeated keys in a lock are not generated.", "3/C12")
 add("C13","exploration","runtime monitor: independent NUT-14 evaluator vs. VerifyHTLCProof and real Mint.Swap over the configuration x witness product, plus helper-produced witnesses",
-    "Same construction as C12 for hash locks; AddWitnessHTLC / AddWitnessHTLCToOutputs output must be accepted by the mint; Wallet.ReceiveHTLC end-to-end.",
+    "Same construction as C12 for hash locks; AddWitnessHTLC / AddWitnessHTLCToOutputs output must be accepted by the mint (malformed lock values never); wallet level: HTLCLockedProofs with every tag combination redeemed by Wallet.ReceiveHTLC, wrong preimage refused.",
     T, "3/C13")
 add("C14","exploration","runtime monitor: round-trip equality and totality (no panic, every accessor callable) over generated proof lists and decoder inputs",
     "NewTokenV3/V4 -> Serialize -> DecodeToken on generated proof lists; DecodeToken/DecodeTokenV3/V4 and all accessors on prefixes, short strings, mutations, base64 of generated JSON/CBOR.",
@@ -61,7 +61,7 @@ add("C17","exploration","runtime monitor: wallet-world conservation and balance 
     "2-3 real wallets and 1-2 real mints; after every operation reported/pending balances, duplicate secrets, no-loss and conservation equations are evaluated from the byte-level transport record and mint-side states; a swap that leaves more at the mint than the fee the mint charges for its inputs is a loss. A directed sequence per history makes every kind of operation once; the listed finding is reproduced at every seed.",
     T, "3/C17")
 add("C18","exploration","runtime monitor: exact-amount and fee oracle on Wallet.Send over generated wallet contents, amounts, fee modes and fee rates",
-    "Harness-minted proofs of arbitrary denominations are placed in a real wallet store; every amount is sent in both fee modes; sum, fee for exactly those proofs, distinctness, mint-side state and the success premise are checked; one fixed store reproduces the listed finding at every seed.",
+    "Harness-minted proofs of arbitrary denominations are placed in a real wallet store; every amount is sent in both fee modes; sum, fee for exactly those proofs, distinctness, mint-side state and the success premise are checked; also as the first operation after a rotation the wallet has not seen, and for sends issued at the same moment; one fixed store reproduces the listed finding at every seed.",
     T, "3/C18")
 add("C19","exploration","runtime monitor: counter-reuse detection on every submitted B_ (independent NUT-13 mapping) and restore completeness vs. mint-side state, incl. wallet crash injection",
     "Wallet histories, restore->continue->restore chains, and a crash at every store/HTTP boundary of mint/send/receive/melt followed by restore from the mnemonic.",
